@@ -65,17 +65,31 @@ fn label_json(label: &ReportLabel, files: &FileLibrary) -> Value {
         }
         Err(_) => (None, None),
     };
-    json!({"path": path, "text": text, "msg": label.message})
+    json!({"path": path, "text": text, "msg": label.message,
+           "start": label.range.start, "end": label.range.end})
 }
 
-/// A report without positions: level, id, message, labelled source text.
+/// The labels of a report in the order in which they are DISPLAYED (codespan
+/// renders them by position; the order inside the report's vectors - often a
+/// hash order - is not observable): by file, start, end, message.
+fn labels_json(labels: &[ReportLabel], files: &FileLibrary) -> Vec<Value> {
+    let mut ls: Vec<&ReportLabel> = labels.iter().collect();
+    ls.sort_by(|a, b| {
+        (a.file_id, a.range.start, a.range.end, &a.message)
+            .cmp(&(b.file_id, b.range.start, b.range.end, &b.message))
+    });
+    ls.into_iter().map(|l| label_json(l, files)).collect()
+}
+
+/// A report as it is displayed: level, id, message, the labels (file, byte
+/// range, labelled source text, message) in display order, the notes.
 fn report_json(report: &Report, files: &FileLibrary) -> Value {
     json!({
         "level": report.category().to_level(),
         "id": report.id(),
         "message": report.message(),
-        "primary": report.primary().iter().map(|l| label_json(l, files)).collect::<Vec<_>>(),
-        "secondary": report.secondary().iter().map(|l| label_json(l, files)).collect::<Vec<_>>(),
+        "primary": labels_json(report.primary(), files),
+        "secondary": labels_json(report.secondary(), files),
         "notes": report.notes(),
     })
 }
